@@ -79,6 +79,63 @@ pub fn clean_run_input() -> Vec<u8> {
     v
 }
 
+/// The same bytes at another start address: callers hand the iterators sub-slices of larger buffers (a record inside a
+/// memory-mapped file, a field of a line), so the address of the first byte modulo the machine word is part of the
+/// input. The bytes around the slice are valid bases, so that reading outside it changes the result.
+pub struct Placed {
+    buf: Vec<u8>,
+    start: usize,
+    len: usize,
+}
+
+impl Placed {
+    pub fn new(seq: &[u8], residue: usize) -> Placed {
+        let mut buf = vec![b'C'; seq.len() + 24];
+        let a = buf.as_ptr() as usize % 8;
+        let start = 8 + (8 + residue - a) % 8;
+        buf[start..start + seq.len()].copy_from_slice(seq);
+        Placed { buf, start, len: seq.len() }
+    }
+    pub fn get(&self) -> &[u8] {
+        &self.buf[self.start..self.start + self.len]
+    }
+}
+
+/// start-address residues (mod 8) other than the slice's own at which a case is run again: all seven for inputs of
+/// 16..=4096 bytes (shorter ones cannot hold a machine word beyond a boundary plus anything else; the exhaustive
+/// small scope stays below 16), one for longer inputs
+pub fn other_residues(seq: &[u8], salt: usize) -> Vec<usize> {
+    let own = seq.as_ptr() as usize % 8;
+    if seq.len() < 16 {
+        Vec::new()
+    } else if seq.len() <= 4096 {
+        (0..8).filter(|&r| r != own).collect()
+    } else {
+        vec![(own + 1 + (seq.len() + salt) % 7) % 8]
+    }
+}
+
+/// lead of 0..=8 bases, a run of ambiguous bytes, an island of 1..=9 bases, a second run, a tail
+pub fn two_runs_islands() -> Vec<Vec<u8>> {
+    let bases = b"ACGTTGCAAGCTTAGGC";
+    let mut out = Vec::new();
+    for lead in 0..=8usize {
+        for run1 in [1usize, 7, 8, 9, 16, 17] {
+            for island in 1..=9usize {
+                for run2 in [1usize, 7, 8, 9, 16, 17, 24] {
+                    let mut s = bases[..lead].to_vec();
+                    s.extend(std::iter::repeat(b'N').take(run1));
+                    s.extend_from_slice(&bases[3..3 + island]);
+                    s.extend(std::iter::repeat(b'N').take(run2));
+                    s.extend_from_slice(b"ACGTTGCA");
+                    out.push(s);
+                }
+            }
+        }
+    }
+    out
+}
+
 fn in_small_scope(seq: &[u8], maxlen: usize) -> bool {
     seq.len() <= maxlen && seq.iter().all(|b| S5.contains(b))
 }
@@ -144,6 +201,22 @@ pub fn c01_case(ctx: &mut Ctx, family: &str, seq: &[u8], k: usize) -> bool {
             argv: vec!["case".into(), "C01".into(), hex(seq), k.to_string()],
         });
         return false;
+    }
+    if let Ok(items) = &got {
+        for r in other_residues(seq, k) {
+            let p = Placed::new(seq, r);
+            let again = guard(|| KmerGenerator::new(p.get(), k).collect::<Vec<(u64, u64)>>());
+            ctx.rep.count("cases.start_address_variants", 1);
+            if again.as_ref().ok() != Some(items) {
+                ctx.rep.violation(Violation {
+                    key: "start-address".into(),
+                    size: seq.len() * 64 + k,
+                    desc: format!("KmerGenerator::new({:?}, {}) [{}]: the same bytes at a start address = {} (mod 8) give {:?}, expected {:?}", show(seq), k, family, r, again, items),
+                    argv: vec!["case".into(), "C01".into(), hex(seq), k.to_string()],
+                });
+                return false;
+            }
+        }
     }
     // consumption modes (on every case that is short enough to keep this cheap, and on a fraction of the long ones)
     if seq.len() <= 7 || (seq.len() > 1000 && k % 10 == 1) {
@@ -398,6 +471,14 @@ pub fn c01(ctx: &mut Ctx) {
             }
         }
     }
+    // two runs of ambiguous bytes with a short island of bases between them, at every position within a machine word
+    for s in two_runs_islands() {
+        for k in 1..=9usize {
+            if sh.mine() {
+                c01_case(ctx, "two-runs-island", &s, k);
+            }
+        }
+    }
     // runs of ambiguous bytes of every length around the block sizes a routine might scan by (8, 16, 32, 64, 128),
     // starting at every alignment within such a block, between clean stretches
     for gap in [1usize, 7, 8, 9, 15, 16, 17, 31, 32, 33, 63, 64, 65, 127, 128, 129, 191, 192, 193, 255, 256, 257, 300] {
@@ -554,6 +635,15 @@ pub fn c02_stream(ctx: &mut Ctx, seq: &[u8], k: usize) {
                     argv,
                 );
                 return;
+            }
+            for res in other_residues(seq, k) {
+                let p = Placed::new(seq, res);
+                let again = guard(|| KmerGenerator::new(p.get(), k).collect::<Vec<(u64, u64)>>());
+                ctx.rep.count("cases.start_address_variants", 1);
+                if again.as_ref().ok() != Some(&a) {
+                    c02_violation(ctx, "start-address", size, format!("{:?} k={}: the same bytes at a start address = {} (mod 8) give the pairs {:?}, not {:?}", show(seq), k, res, again, a), argv);
+                    return;
+                }
             }
             // the pairs must be the same however the iterator object is consumed
             if seq.len() <= 7 {
@@ -783,7 +873,19 @@ pub fn c09_case(ctx: &mut Ctx, family: &str, seq: &[u8], w: usize, m: usize) -> 
     let (key, what) = match &got {
         Err(p) => ("panic".to_string(), format!("panicked: {}", p)),
         Ok(g) if *g == exp => {
-            if seq.len() <= 7 || (seq.len() > 1000 && m % 4 == 1) {
+            let mut moved: Option<(String, String)> = None;
+            for r in other_residues(seq, w + m) {
+                let p = Placed::new(seq, r);
+                let again = guard(|| MinimiserGenerator::new(p.get(), w, m).collect::<Vec<(u64, usize, usize)>>());
+                ctx.rep.count("cases.start_address_variants", 1);
+                if again.as_ref().ok() != Some(g) {
+                    moved = Some(("start-address".to_string(), format!("the same bytes at a start address = {} (mod 8) give {:?}", r, again)));
+                    break;
+                }
+            }
+            if let Some(mv) = moved {
+                mv
+            } else if seq.len() <= 7 || (seq.len() > 1000 && m % 4 == 1) {
                 let r = guard(|| consumption_modes(|| MinimiserGenerator::new(seq, w, m), g));
                 match r {
                     Ok(None) => return true,
@@ -843,6 +945,20 @@ pub fn c18_case(ctx: &mut Ctx, family: &str, seq: &[u8], w: usize, m: usize) -> 
                     "wmers-wrong"
                 };
                 (k.to_string(), format!("concatenated k-mer lists {:?}, expected canonical w-mers {:?}", concat, exp_stream))
+            } else if let Some(mv) = {
+                let mut moved: Option<(String, String)> = None;
+                for r in other_residues(seq, w + m) {
+                    let p = Placed::new(seq, r);
+                    let again = guard(|| KmerMinimiserGenerator::new(p.get(), w, m).collect::<Vec<(u64, usize, usize, Vec<u64>)>>());
+                    ctx.rep.count("cases.start_address_variants", 1);
+                    if again.as_ref().ok() != Some(with) {
+                        moved = Some(("start-address".to_string(), format!("the same bytes at a start address = {} (mod 8) give {:?}", r, again)));
+                        break;
+                    }
+                }
+                moved
+            } {
+                mv
             } else if seq.len() <= 7 {
                 match guard(|| consumption_modes(|| KmerMinimiserGenerator::new(seq, w, m), with)) {
                     Ok(None) => return true,
@@ -1057,6 +1173,13 @@ pub fn minimiser_spaces(ctx: &mut Ctx, which: u32) {
             }
         }
     }
+    for (i, s) in two_runs_islands().iter().enumerate() {
+        for (w, m) in [(1usize, 1usize), (3, 2), (1 + i % 9, 1 + i % 5)] {
+            if w >= m && w <= wmax && sh.mine() {
+                run(ctx, "two-runs-island", s, w, m);
+            }
+        }
+    }
     for gap in [1usize, 7, 8, 9, 15, 16, 17, 31, 32, 33, 63, 64, 65, 127, 128, 129, 255, 256, 257, 300] {
         for offset in [0usize, 1, 5, 31, 32, 33, 63, 64, 65, 70, 128] {
             if !sh.mine() {
@@ -1087,6 +1210,32 @@ pub fn minimiser_spaces(ctx: &mut Ctx, which: u32) {
             }
             if w <= wmax && sh.mine() {
                 run(ctx, "threshold-length", &s, w, m);
+                n_long += 1;
+                ctx.rep.nontrivial += 1;
+            }
+        }
+    }
+    // one minimiser over more than 2^22 (thorough: 2^24) consecutive windows: the widths a run length or a per-run
+    // list could be narrowed to lie far beyond what the other inputs reach
+    {
+        let n = (1usize << 22) + 5003;
+        let mut clean = long_input(n, 91);
+        clean.iter_mut().for_each(|b| {
+            if !b"ACGT".contains(b) {
+                *b = b'A'
+            }
+        });
+        let mut giants: Vec<(Vec<u8>, usize, usize)> = vec![
+            (vec![b'A'; n], 21, 11),
+            (clean, 31, 1),
+            (b"ACGTT".iter().cycle().take(n).cloned().collect(), 25, 12),
+        ];
+        if ctx.thorough() {
+            giants.push((vec![b'T'; (1usize << 24) + 77], 21, 11));
+        }
+        for (s, w, m) in giants {
+            if w <= wmax && sh.mine() {
+                run(ctx, "multi-million-window-run", &s, w, m);
                 n_long += 1;
                 ctx.rep.nontrivial += 1;
             }
